@@ -13,6 +13,42 @@ SIZED_KINDS = ['list', 'tuple', 'ndarray', 'ndarray_U', 'series', 'series_shifte
                'series_str', 'series_dup', 'index', 'deque']
 ONESHOT_KINDS = ['iterator', 'generator']
 
+# "any alphabet": a string is a sequence of CODE POINTS and one edit changes one code point, whatever its width in some encoding.
+# Alphabets that separate code points from UTF-8 bytes / UTF-16 units / truncated code units / normalised or case-folded text:
+WIDE_ALPHABETS = {
+    'latin_accented': 'e\u00e9\u00e8\u00ea\u00ebE\u00c9\u0301a\u00e0c\u00e7',   # base letter, precomposed, combining mark, upper case (1-2 bytes)
+    'greek_cyrillic': '\u03b1\u03b2\u03b3\u03b4\u03b5\u0391\u0392\u03c3\u03c2\u0430\u0431\u0410',   # all 2 bytes
+    'cjk_similar': '\u65e5\u672c\u8a9e\u76ee\u6728\u66f0\u672b\u672a',       # 3 bytes each, shared lead bytes
+    'cjk_1000': ''.join(chr(0x4e00 + i) for i in range(1000)),
+    'emoji_nonbmp': '\U0001F600\U0001F601\U0001F9EC\U00010348\U0002000B\u200d',  # 4 bytes / surrogate pairs, plus the zero-width joiner
+    'mixed_width': 'A\u00e9\u65e5\U0001F600z\u03b2',                              # 1, 2, 3 and 4 bytes
+    'same_low_bits': 'A\u0141\u0241\u4e41\U00010041\U00020041',                  # equal modulo 256, three of them equal modulo 65536
+    'latin1_edge': '~\x7f\x80\u00ff\u0100\ufeff',                                # around the 7-bit / 8-bit borders, byte-order mark
+    'whitespace': ' \t\nA\u00a0\u3000',
+}
+ASCII_ALPHABETS = ['A', 'AC', 'ACGT', gens.AA]
+
+
+def draw_alphabet(rng, ctx, p_wide=0.5):
+    if rng.random() < p_wide:
+        name = rng.choice(sorted(WIDE_ALPHABETS))
+        ctx.count('alphabet=' + name)
+        return WIDE_ALPHABETS[name]
+    ctx.count('alphabet=ascii')
+    return rng.choice(ASCII_ALPHABETS)
+
+
+def _first_diff(g, rows, cols, exp):
+    """(row string, column string, got, expected) of the first entry that differs, for the message"""
+    try:
+        a = np.asarray(g[1]).astype(np.float64)
+        e = np.array(exp, dtype=np.float64).reshape(a.shape)
+        for i, j in zip(*np.nonzero(a != e)):
+            return dict(a=rows[i], b=cols[j], got=float(a[i, j]), expected=float(e[i, j]))
+    except Exception:
+        pass
+    return None
+
 
 def cont(rng, kind, xs):
     """-> (container holding xs in this order, printable description). Position decides, never the pandas label."""
@@ -86,7 +122,8 @@ def run(ctx):
     ctx.rule = ('(a) foundation tie: rapidfuzz Levenshtein.distance (plain / weights / score_cutoff), Hamming.distance, python-Levenshtein '
                 'distance (plain / weights / score_cutoff) against the proved DP for ALL pairs of strings of length <= L on 2 letters and '
                 '<= L-2 on 3 letters, plus random pairs of length 0..400 on 1-, 2-, 4-, 20-, 1000-letter alphabets incl. non-BMP code points; '
-                '(b) Levenshtein / WeightedLevenshtein calc_cdist_matrix and calc_pdist_vector on collections of 0..12 strings; every '
+                '(b) Levenshtein / WeightedLevenshtein calc_cdist_matrix and calc_pdist_vector on collections of 0..12 strings over ASCII and non-ASCII alphabets '
+                '(accented Latin with combining marks, Greek / Cyrillic, CJK, emoji / non-BMP, mixed UTF-8 widths, code points equal modulo 256 / 65536, whitespace); every '
                 'collection is evaluated by SEVERAL metric objects (fresh and re-used ones, different weight triples incl. the ins/del swap, '
                 'asymmetric triples from {1,2,3,5,7,11}) in shuffled order with repeats, followed by permuted / edited variants of the same '
                 'collection, each call with its own container (list / tuple / ndarray object+str / Series with default, shifted, permuted, '
@@ -100,7 +137,7 @@ def run(ctx):
     if ctx.quick:
         pairs = rng.sample(pairs, 1500)
     ctx.exhaustive = not ctx.quick
-    alphas = ['A', 'AC', 'ACGT', gens.AA, ''.join(chr(0x4e00 + i) for i in range(1000)), 'A\U0001F600\U00010348é']
+    alphas = ASCII_ALPHABETS + [''.join(chr(0x4e00 + i) for i in range(1000)), 'A\U0001F600\U00010348é'] + [WIDE_ALPHABETS[k] for k in sorted(WIDE_ALPHABETS)]
     for _ in range(60 if ctx.quick else 600):
         al = rng.choice(alphas)
         n1, n2 = rng.choice([0, 1, 5, 30, 120, 400]), rng.choice([0, 1, 5, 30, 120, 400])
@@ -173,7 +210,7 @@ def run(ctx):
     colls = []
     for _ in range(40 if ctx.quick else 500):
         m = rng.randint(0, 12)
-        al = rng.choice(alphas[:4])
+        al = draw_alphabet(rng, ctx)
         big = rng.random() < 0.15
         mid = (not big) and rng.random() < 0.12       # weighted distances above 255 between strings shorter than 256 (a narrowed dtype shows)
         if mid:
@@ -253,18 +290,30 @@ def run(ctx):
                 (ca, da), (cb, db) = cont(rng, kx, xs), cont(rng, ky, ys)
                 g = call_impl(metric.calc_cdist_matrix, ca, cb)
                 if not _shape_eq(g, (len(xs), len(ys)), cd):
-                    ctx.violation('property', '%s.calc_cdist_matrix(%s, %s) differs from the optimal alignment costs on A=%s B=%s: %s (expected %s); earlier calls on '
-                                  'this collection: %s' % (label, da, db, _show(xs), _show(ys), str(g)[:300], str(cd)[:200], history or 'none'),
-                                  dict(A=xs, B=ys, weights=w, containerA=da, containerB=db, earlier_calls=list(history), variant_of_previous=c['derived']),
+                    fd = _first_diff(g, xs, ys, cd)
+                    ctx.violation('property', '%s%s.calc_cdist_matrix(%s, %s) differs from the optimal alignment costs on A=%s B=%s: %s (expected %s); earlier calls on '
+                                  'this collection: %s' % ('' if fd is None else 'd(%r -> %r) = %s but the optimal alignment cost (one edit = one code point) is %s; in '
+                                                           % (_show([fd['a']])[0], _show([fd['b']])[0], fd['got'], fd['expected']),
+                                                           label, da, db, _show(xs), _show(ys), str(g)[:300], str(cd)[:200], history or 'none'),
+                                  dict(A=xs, B=ys, weights=w, containerA=da, containerB=db, earlier_calls=list(history), variant_of_previous=c['derived'], first_difference=fd),
                                   site='metric.calc_cdist_matrix')
                 history.append('%s.calc_cdist_matrix(%s, %s)' % (label, kx, ky))
             else:
                 ca, da = cont(rng, kx, xs)
                 g = call_impl(metric.calc_pdist_vector, ca)
                 if not _shape_eq(g, (len(pd_),), pd_):
-                    ctx.violation('property', '%s.calc_pdist_vector(%s) is not the condensed upper triangle of the optimal alignment costs on %s: %s (expected %s); '
-                                  'earlier calls on this collection: %s' % (label, da, _show(xs), str(g)[:300], str(pd_)[:200], history or 'none'),
-                                  dict(X=xs, weights=w, container=da, earlier_calls=list(history), variant_of_previous=c['derived']),
+                    fd = None
+                    if g[0] == 'ok' and np.asarray(g[1]).shape == (len(pd_),):
+                        prs = [(i, j) for i in range(len(xs)) for j in range(i + 1, len(xs))]
+                        for (i, j), u, v in zip(prs, np.asarray(g[1]).tolist(), pd_):
+                            if float(u) != float(v):
+                                fd = dict(i=i, j=j, a=xs[i], b=xs[j], got=float(u), expected=float(v))
+                                break
+                    ctx.violation('property', '%s%s.calc_pdist_vector(%s) is not the condensed upper triangle of the optimal alignment costs on %s: %s (expected %s); '
+                                  'earlier calls on this collection: %s' % ('' if fd is None else 'entry for (i, j) = (%d, %d) is %s but d(%r -> %r) = %s (one edit = one code point); in '
+                                                                           % (fd['i'], fd['j'], fd['got'], _show([fd['a']])[0], _show([fd['b']])[0], fd['expected']),
+                                                                           label, da, _show(xs), str(g)[:300], str(pd_)[:200], history or 'none'),
+                                  dict(X=xs, weights=w, container=da, earlier_calls=list(history), variant_of_previous=c['derived'], first_difference=fd),
                                   site='metric.calc_pdist_vector')
                 if g[0] == 'ok' and len(xs) >= 2:
                     sq = call_impl(ssd.squareform, np.asarray(g[1]))
@@ -290,8 +339,9 @@ def run(ctx):
     # (c1) injective metric callables: any index permutation / label lookup / dropped keyword argument is visible
     for t in range(120 if ctx.quick else 1500):
         m, mb = rng.randint(0, 9), rng.randint(0, 6)
-        xs = ['s%d' % i for i in range(m)]
-        ys = ['t%d' % i for i in range(mb)]
+        pa, pb = rng.choice([('s', 't'), ('s', 't'), ('\u00e9', 'e\u0301'), ('\u65e5', '\u672c'), ('\U0001F600', '\U0001F601'), ('\u0141', 'A')])
+        xs = ['%s%d' % (pa, i) for i in range(m)]
+        ys = ['%s%d' % (pb, i) for i in range(mb)]
         rng.shuffle(xs)
         ident = {s: i for i, s in enumerate(sorted(xs) + sorted(ys))}
 
@@ -367,7 +417,7 @@ def run(ctx):
 
     cases = []
     for t in range(70 if ctx.quick else 900):
-        al = rng.choice(['AC', 'ACGT', gens.AA, 'aAcCgG'])
+        al = rng.choice(['AC', 'ACGT', gens.AA, 'aAcCgG']) if rng.random() < 0.6 else draw_alphabet(rng, ctx, 1.0)
         m, mb = rng.randint(0, 8), rng.randint(0, 6)
         wide = rng.random() < 0.12                  # distances above 255: a dtype wider than the default uint8 is requested
         xs = [''.join(rng.choice(al) for _ in range(rng.randint(36, 50) if wide and i < 2 else rng.randint(0, 10))) for i in range(m)]
